@@ -932,7 +932,7 @@ def _pure_cases(draw):
     return {"a": a, "b": b, "dt": draw(st.sampled_from([0.005, 0.01, 0.02, 0.05])), "seed": draw(st.integers(0, 10 ** 6))}
 
 
-@clause(CLAUSES, "pure-functions", _pure_cases(), quick=40, thorough=100,
+@clause(CLAUSES, "pure-functions", _pure_cases(), quick=14, quick_shards=3, thorough=45,
         rule="each case calls, for each of the three container variants (float64 / int64 ndarray, list), every PRIMARY call form (one per function "
              "with all options at their defaults + one with every option non-default, the object methods taking arrays, the 0-d dt variants, "
              "loader.save) and one in 4 (rotating with the case) of the remaining forms of the cross product of every function's optional "
@@ -1110,9 +1110,9 @@ def _count_plan(f, tier):
     s = gen.run_seed()
     quick = tier == "quick"
     if f.count == "loop":   # python loop over the n samples with m-vectors: n stays short
-        budget, n_lo, n_hi = (1.5e6, 300, 2500) if quick else (8e6, 300, 8000)
+        budget, n_lo, n_hi = (3e5, 200, 1500) if quick else (4e6, 300, 8000)
     else:                   # vectorised (m x n) temporaries
-        budget, n_lo, n_hi = (2.5e6, 300, 60000) if quick else (2e7, 300, 200000)
+        budget, n_lo, n_hi = (8e5, 300, 20000) if quick else (1.2e7, 300, 200000)
     m_top = _top(5000, s, "mtop", f.name)
     rungs = gen.ladder(40, 4400, 8 if quick else 14, "c05m:" + f.name)
     mined = [c for c in gen.mined_sizes(40, 5000, 6, "c05m:" + f.name)]
@@ -1124,13 +1124,12 @@ def _count_plan(f, tier):
     if not quick:
         return [(m, n_of(m), how) for m in sorted(set(rungs + [m_top] + mined)) for how in ("float", "int", "list")]
     r = rungs[_hh(s, "mr", f.name) % len(rungs)]
-    plan = [(r, n_of(r), alts[0])]
-    if f.primary or _hh(s, "mlong", f.name) % 3 == 0:
-        plan.append((m_top, n_of(m_top), "float"))
-    else:
-        r2 = rungs[(rungs.index(r) + 1 + _hh(s, "mr2", f.name) % (len(rungs) - 1)) % len(rungs)]
-        plan.append((r2, n_of(r2), "float"))
-    if f.primary and mined:
+    if not f.primary:  # (the other members of a cross product: one count each, the top tenth for a hash-chosen third)
+        if _hh(s, "mlong", f.name) % 3 == 0:
+            return [(m_top, n_of(m_top), "float")]
+        return [(r, n_of(r), "float" if _hh(s, "mhow", f.name) % 2 else alts[0])]
+    plan = [(m_top, n_of(m_top), "float"), (r, n_of(r), alts[0])]
+    if mined:
         c = mined[_hh(s, "mm", f.name) % len(mined)]
         plan.append((c, n_of(c), "float"))
     return plan
@@ -1150,9 +1149,10 @@ def _count_enum(tier, shard, nshards):
 core.enum_clause(CLAUSES, "mid-range-counts", _count_enum, quick_shards=4,
                  rule="every call form with a *count* dimension (periods of the sdof / spectra functions, shifts, travel times + reduction arrays, "
                       "power-law exponents, target frequencies of the smoothing functions, table rows and query points of the interpolation helpers) "
-                      "with that count laddered over 40 .. 5 000 (>= 2 counts per form at every seed, the top tenth for primary forms and a "
-                      "hash-chosen third of the others, + counts aimed at integer literals of the source) and the record length chosen so that "
-                      "count x length is ~1e5 .. 2.5e6 (quick) / 2e7 (thorough); non-trivial = evaluated",
+                      "with that count laddered over 40 .. 5 000 (quick: primary forms the top tenth + a rung + a count aimed at an integer literal "
+                      "of the source, the other members of a cross product one count each - the top tenth for a hash-chosen third; thorough: 14 "
+                      "rungs + top + mined x 3 containers for every form) and the record length chosen so that count x length is ~3e5 .. 8e5 "
+                      "(quick) / 4e6 .. 1.2e7 (thorough); non-trivial = evaluated",
                  oracle="as pure-functions (arguments unchanged, no shared memory, same result when called again)",
                  exhaustive_note="all count-dimension call forms x planned (count, length, container) triples at this seed",
                  min_nontrivial=0.5)(_mid_check)
@@ -1175,7 +1175,7 @@ _OWN_SEQS = [
 def _own_enum(tier, shard, nshards):
     s = gen.run_seed()
     quick = tier == "quick"
-    sizes = gen.size_ladder(2000, 300000 if quick else 1500000, 8 if quick else 16, "c05own", mined_limit=4)
+    sizes = gen.size_ladder(2000, 300000 if quick else 1500000, 6 if quick else 16, "c05own", mined_limit=2 if quick else 6)
     hows = ["float", "int", "list", "subclass", "arraylike"]
     i = 0
     for n in sizes:
